@@ -5,6 +5,7 @@ for p in $(python3 -c "import json;print(' '.join(c['property_id'] for c in json
   python3 checks/run.py $p --tier quick | grep -E "^(VIOLATION|UNDECIDED|CHECKER|$p tier)" | cut -c1-220
   echo "  exit=$?"
 done
+python3 checks/crosscheck.py | tail -1
 python3-vt - <<'PY'
 import json, jsonschema, glob
 sch=json.load(open('/root/.vp/EVIDENCE.schema.json'))
